@@ -16,6 +16,7 @@ from nverif.props import deriv_common as dc
 
 CALIBRATE = bool(os.environ.get('NVERIF_CALIBRATE'))
 FLOOR = 64.0
+ILL_CONDITIONED = 1e4
 
 
 def tol_for(table, method, n, bucket):
@@ -50,7 +51,7 @@ class C01(Prop):
             self.table = dc.load_constants().get('C01_tol', {})
         except Exception:
             self.table = {}
-        self.constants = {'FLOOR_eps_multiple': FLOOR, 'tol_table': 'nverif/constants.json:C01_tol'}
+        self.constants = {'FLOOR_eps_multiple': FLOOR, 'ILL_CONDITIONED': ILL_CONDITIONED, 'tol_table': 'nverif/constants.json:C01_tol'}
 
     def strategy(self, tier):
         return dc.derivative_case()
@@ -77,6 +78,17 @@ class C01(Prop):
             ctx.sample(dc.summary(case, ev))
             return
         bucket = dc.cfgclass(case)
+        # programs whose *evaluation* is ill-conditioned (first-order sensitivity of the value to
+        # relative errors of its intermediates above 1e4 * |f(x)|-scale, e.g. exp(1j*x**-2.05) at
+        # x = 1e-3): every derivative estimate is dominated by amplified rounding noise and the
+        # library's choice among them is arbitrary; they form their own (weak) class
+        for a in ev.analyses:
+            sens = a.sensitivity(n)
+            if sens is not None:
+                scale0 = max(abs(complex(a.jets[-1].c[0])), 1e-300)
+                if sens[0] > ILL_CONDITIONED * scale0:
+                    bucket += '+illcond'
+                    break
         ctx.count('k_est=%s' % dc.kbucket(ev.k_est))
         ctx.count('cfg=%s' % bucket)
         tol = tol_for(self.table, method, n, bucket)
